@@ -236,7 +236,8 @@ impl<'a> Run<'a> {
                 let b = op["b"].as_u64().unwrap();
                 let fudge = op["fudge"].as_u64().unwrap() as u16;
                 let id = self.req_id_verified;
-                let mut bld = match msg_builder(id, 0x80, 0, b) { Ok(x) => x, Err(e) => return json!({"harness": e}) };
+                let rc = op["rc"].as_u64().unwrap_or(0) as u8;
+                let mut bld = match msg_builder(id, 0x80, rc, b) { Ok(x) => x, Err(e) => return json!({"harness": e}) };
                 let pre = bld.as_slice().to_vec();
                 let now = t48(&op["now"]);
                 let r = match std::mem::replace(&mut self.srv, Srv::None) {
@@ -258,12 +259,13 @@ impl<'a> Run<'a> {
                 // the independent responder: MAC = eval(spec term), RR composed here
                 let b = op["b"].as_u64().unwrap();
                 let id = self.req_id_verified;
-                let pre = msg_octets(id, 0x80, 0, b);
+                let pre = msg_octets(id, 0x80, op["rc"].as_u64().unwrap_or(0) as u8, b);
                 let (j, n) = (op["mac"].as_u64().unwrap() as usize, op["n"].as_u64().unwrap() as usize);
                 let mac = match self.terms.get_mut("ideal").unwrap().mac(j, n) { Ok(m) => m, Err(e) => return json!({"harness": e}) };
                 self.last_full = ref_full_guess(&mut self.terms, j);
                 let rr = TsigRr { name: name_wire(KEYNAME_S), alg: alg_wire(&alg), time: op["now"].as_u64().unwrap(),
-                                  fudge: op["fudge"].as_u64().unwrap() as u16, mac, oid: id, err: 0, other: vec![] };
+                                  fudge: op["fudge"].as_u64().unwrap() as u16, mac, oid: id,
+                                  err: op["err"].as_u64().unwrap_or(0) as u16, other: bytes_of(&op["other"]) };
                 let mut wire = pre.clone();
                 wire.extend(rr.encode());
                 let ar = get_ar(&wire);
@@ -273,7 +275,7 @@ impl<'a> Run<'a> {
             }
             "rfc_unsigned" => {
                 let b = op["b"].as_u64().unwrap();
-                let w = msg_octets(self.req_id_verified, 0x80, 0, b);
+                let w = msg_octets(self.req_id_verified, 0x80, op["rc"].as_u64().unwrap_or(0) as u8, b);
                 self.net.push_back(Flight { pre_len: w.len(), pre: w.clone(), wire: w, rep: op["n"].as_u64().unwrap_or(1), signed: false, movedup: false });
                 json!({"res": "Ok"})
             }
